@@ -65,6 +65,10 @@ pub struct Case {
     pub slots: Vec<Slot>,
     /// which slot issues its next update, in order (the interleaving)
     pub order: Vec<u16>,
+    /// network-level variant: the slots are the parameter tensors of a whole network and
+    /// the updates go through `Network::update` / `Feedback::update` (slot addressing)
+    #[serde(default)]
+    pub net: Option<super::c03_net::NetHistory>,
 }
 
 impl Slot {
@@ -174,7 +178,7 @@ fn run_library(opt: &OptCfg, slots: &[Slot], rank: u8, order: &[u16], only: Opti
 // reference model: the documented equations, generic over f32 / f64
 // ---------------------------------------------------------------------------------------
 
-trait Real: Copy {
+pub(crate) trait Real: Copy {
     fn from32(x: f32) -> Self;
     fn to64(self) -> f64;
     fn add(self, o: Self) -> Self;
@@ -248,7 +252,7 @@ impl Real for f64 {
 }
 
 /// Hyper-parameters after the substitution `Optimizer::validate` performs for zeros.
-fn substituted(opt: &OptCfg) -> OptCfg {
+pub(crate) fn substituted(opt: &OptCfg) -> OptCfg {
     let nz = |x: f32, d: f32| if x == 0.0 { d } else { x };
     match opt.clone() {
         OptCfg::SGD { lr, decay } => OptCfg::SGD { lr: nz(lr, 0.1), decay },
@@ -281,14 +285,14 @@ fn substituted(opt: &OptCfg) -> OptCfg {
 }
 
 #[derive(Clone)]
-struct RefState<R: Real> {
-    w: R,
-    a: R, // velocity
-    b: R, // momentum / gradient average
-    c: R, // buffer
+pub(crate) struct RefState<R: Real> {
+    pub w: R,
+    pub a: R, // velocity
+    pub b: R, // momentum / gradient average
+    pub c: R, // buffer
 }
 
-fn reference_step<R: Real>(opt: &OptCfg, st: &mut RefState<R>, g32: f32, stepnr: i32) {
+pub(crate) fn reference_step<R: Real>(opt: &OptCfg, st: &mut RefState<R>, g32: f32, stepnr: i32) {
     let r = R::from32;
     let one = r(1.0);
     let mut g = r(g32);
@@ -352,7 +356,7 @@ fn reference_step<R: Real>(opt: &OptCfg, st: &mut RefState<R>, g32: f32, stepnr:
     }
 }
 
-fn draw_optimizer(rng: &mut Rng) -> OptCfg {
+pub(crate) fn draw_optimizer(rng: &mut Rng) -> OptCfg {
     let decay = |rng: &mut Rng| if rng.chance(0.5) { Some(rng.pick(&[0.001f32, 0.01, 0.1])) } else { None };
     let lr = |rng: &mut Rng, zero_ok: bool| {
         if zero_ok && rng.chance(0.08) {
@@ -440,11 +444,19 @@ impl Property for C03 {
             "same_layer_two_slots",
             "bias_slot",
             "filter_slot_ge_1",
+            "network_level",
+            "network_level_conv_filters_ge_2",
+            "network_level_feedback",
+            "network_level_stateful",
         ]
     }
 
     fn generate(&self, rng: &mut Rng, tier: Tier) -> Case {
         let opt = draw_optimizer(rng);
+        if rng.chance(0.25) {
+            let net = super::c03_net::generate(rng, &opt);
+            return Case { opt, slots: Vec::new(), order: Vec::new(), net: Some(net) };
+        }
         let long = rng.chance(match tier {
             Tier::Quick => 0.04,
             Tier::Thorough => 0.04,
@@ -496,10 +508,16 @@ impl Property for C03 {
             left[pick] -= 1;
             order.push(pick as u16);
         }
-        Case { opt, slots, order }
+        Case { opt, slots, order, net: None }
     }
 
     fn check(&self, case: &Case, stats: &mut Stats) -> Outcome {
+        for p in self.required_probes() {
+            stats.probe(p, false);
+        }
+        if let Some(h) = &case.net {
+            return super::c03_net::check(&case.opt, h, stats);
+        }
         let opt = &case.opt;
         let total: usize = case.slots.iter().map(|s| s.updates).sum();
         stats.probe(&format!("optimizer_{}", opt.kind()), true);
@@ -649,6 +667,12 @@ impl Property for C03 {
     }
 
     fn shrink(&self, case: &Case) -> Vec<Case> {
+        if let Some(h) = &case.net {
+            return super::c03_net::shrink(h)
+                .into_iter()
+                .map(|n| Case { opt: n.net.optimizer.clone().unwrap_or(case.opt.clone()), slots: Vec::new(), order: Vec::new(), net: Some(n) })
+                .collect();
+        }
         let mut out = Vec::new();
         let reorder = |c: &mut Case| {
             // rebuild a valid order: keep relative order of surviving entries
@@ -771,7 +795,7 @@ impl Property for C03 {
     }
 
     fn nontrivial_key(&self, case: &Case, _stats: &Stats) -> Option<u64> {
-        let total: usize = case.slots.iter().map(|s| s.updates).sum();
+        let total: usize = case.slots.iter().map(|s| s.updates).sum::<usize>() + case.net.as_ref().map(|h| h.steps.len()).unwrap_or(0);
         if total >= 2 {
             Some(crate::rng::hash_str(&serde_json::to_string(case).unwrap_or_default()))
         } else {
@@ -780,6 +804,9 @@ impl Property for C03 {
     }
 
     fn sample(&self, case: &Case) -> serde_json::Value {
+        if let Some(h) = &case.net {
+            return json!({ "optimizer": case.opt, "network": h.net, "steps": h.steps, "samples": h.data.len() });
+        }
         json!({
             "optimizer": case.opt,
             "slots": case.slots,
